@@ -24,29 +24,36 @@ from ..core import Machinery
 from ..rigs import script_rig as R
 
 INVARIANTS = ['TypeOK', 'InvOrder', 'InvPerRank', 'InvNoneSkipped', 'InvFailPre', 'InvExitCode',
-              'InvPostNeedsExec', 'InvBarrier', 'InvEnv', 'InvLaunch', 'InvOutFiles', 'InvAgree',
+              'InvPostNeedsExec', 'InvBarrier', 'InvEnv', 'InvDescribedEnv', 'InvLaunch', 'InvOutFiles', 'InvAgree',
               'InvProgress']
-DEVS = ['DevEnvUnescaped', 'DevIgnorePreFail', 'DevRetAfterPost', 'DevErrDirFromOut']
+DEVS = ['DevEnvUnescaped', 'DevIgnorePreFail', 'DevRetAfterPost', 'DevErrDirFromOut',
+        'DevNamedEnvLast']
 
 
 # ------------------------------------------------------------------------------
 def cfgset(ranks='1..2', pre=2, post=1, prel='{0}', postl='{0}', sync='BOOLEAN',
            argv='{<<"plain">>}', env='{<<>>}', omp='{FALSE}', gpr='{0}', out='{"default"}',
-           err='{"default"}', lm=None, pre_set=None):
-    '''TLA+ set expression of task shapes (see ScriptOps.tla for the fields)'''
+           err='{"default"}', lm=None, pre_set=None, nenv='{FALSE}', envk=None):
+    '''TLA+ set expression of task shapes (see ScriptOps.tla for the fields);
+       envk: set of key-kind sequences for the environment ev (default: all fresh)'''
     lm    = lm or '(IF n = 1 THEN {"fork", "mpi"} ELSE {"mpi"})'
     pre_s = pre_set or 'SeqsUpTo(Entries(n), %d)' % pre
-    return ('UNION { { [ranks |-> n, lm |-> lm, pre |-> p, post |-> q, prel |-> a, postl |-> b, '
-            'sync |-> s, argv |-> av, env |-> ev, omp |-> om, gpr |-> g, out |-> o, err |-> oe] : '
+    envk  = envk or '{[i \\in 1 .. Len(ev) |-> "fresh"]}'
+    return ('UNION { UNION { { [ranks |-> n, lm |-> lm, pre |-> p, post |-> q, prel |-> a, '
+            'postl |-> b, sync |-> s, argv |-> av, env |-> ev, envk |-> ek, nenv |-> ne, '
+            'omp |-> om, gpr |-> g, out |-> o, err |-> oe] : '
             'lm \\in %s, p \\in %s, q \\in SeqsUpTo(Entries(n), %d), a \\in %s, b \\in %s, '
-            's \\in %s, av \\in %s, ev \\in %s, om \\in %s, g \\in %s, o \\in %s, oe \\in %s } '
-            ': n \\in %s }'
-            % (lm, pre_s, post, prel, postl, sync, argv, env, omp, gpr, out, err, ranks))
+            's \\in %s, av \\in %s, ek \\in %s, ne \\in %s, om \\in %s, g \\in %s, o \\in %s, '
+            'oe \\in %s } : ev \\in %s } : n \\in %s }'
+            % (lm, pre_s, post, prel, postl, sync, argv, envk, nenv, omp, gpr, out, err, env, ranks))
 
 
 _ONE  = dict(ranks='{1}', pre=0, post=0, sync='{FALSE}', lm='{"fork"}')
 _RES  = dict(pre_set='{<<>>, <<GEntry>>, <<REntry({0})>>}', post=0, sync='{FALSE}',
              omp='BOOLEAN', gpr='0..2')
+# named environment x described keys it also defines / the agent has and it lacks
+_NENV = dict(pre=0, post=0, sync='{FALSE}', nenv='BOOLEAN',
+             env='SeqsUpTo({"plain", "space"}, 2)', envk='[1 .. Len(ev) -> KeyKinds]')
 _KINDS = '{"default", "rel", "abs"}'
 # td.stdout x td.stderr, independently: all nine combinations, every launcher
 _IO   = dict(pre_set='{<<>>, <<GEntry>>}', post=0, sync='{FALSE}', out=_KINDS, err=_KINDS)
@@ -61,6 +68,7 @@ SLICES = {
         'env'   : cfgset(env='SeqsUpTo(Classes, 2)', **_ONE),
         'res'   : cfgset(**_RES),
         'io'    : cfgset(**_IO),
+        'nenv'  : cfgset(**_NENV),
     },
     'thorough': {
         'ctl1'  : cfgset(ranks='{1}', pre=3, post=2),
@@ -72,6 +80,7 @@ SLICES = {
         'envarg': cfgset(env='SeqsUpTo(Alarmed, 1)', argv='SeqsUpTo(Alarmed, 1)', **_ONE),
         'res'   : cfgset(**_RES),
         'io'    : cfgset(gpr='0..1', **_IO),
+        'nenv'  : cfgset(**dict(_NENV, pre_set='{<<>>, <<GEntry>>}')),
     },
 }
 
@@ -131,6 +140,8 @@ def features(run):
         fs.add('arg[%d]:%s' % (i, c))
     for i, c in enumerate(cfg['env']):
         fs.add('env[%d]:%s' % (i, c))
+        fs.add('envk[%d]:%s/nenv%d/%s%d' % (i, cfg['envk'][i], cfg['nenv'], cfg['lm'], cfg['ranks']))
+    fs.add('nenv%d/%s%d' % (cfg['nenv'], cfg['lm'], cfg['ranks']))
     for f in F:
         fs.add('fail:%s[%d]@%d/%d' % (f['sig'], f['i'], f['r'], cfg['ranks']))
     if not F:
@@ -185,6 +196,7 @@ def build_cases(runs, rng, per_data_run):
 
 # ------------------------------------------------------------------------------
 ENV_UNESCAPED = 'environment value with a double quote or a trailing / doubled backslash'
+NAMED_ENV_KEY = 'named environment and a described key it defines or its activation unsets'
 MIXED_IO      = 'exactly one of td.stdout / td.stderr is an absolute path'
 ANY_TASK      = 'every task'
 OTHER         = 'task without hostile environment value'
@@ -198,6 +210,8 @@ def classify(case, clause):
         if '"' in val or val.endswith('\\') or '\\\\' in val:
             return ENV_UNESCAPED
     cfg = case['cfg']
+    if cfg.get('nenv') and any(k != 'fresh' for k in cfg.get('envk', [])):
+        return NAMED_ENV_KEY
     if (cfg['out'] == 'abs') != (cfg.get('err', cfg['out']) == 'abs'):
         return MIXED_IO
     return OTHER
@@ -261,7 +275,7 @@ def run(chk, tier, seed):
     # ---- 2. deviation sensitivity of the model's invariants ------------------------
     if not quick:
         small = {'ctl': cfgset(pre=1, post=1), 'env': SLICES['quick']['env'],
-                 'io': SLICES['quick']['io']}
+                 'io': SLICES['quick']['io'], 'nenv': SLICES['quick']['nenv']}
         for dev in DEVS:
             r2 = tlc.run('Script', 'MC', 'MC.cfg', workers=workers, timeout=900,
                          extra_files=mc_files(small, devs=[dev]))
@@ -271,7 +285,7 @@ def run(chk, tier, seed):
             chk.notes.append('deviation %s breaks %s in the design model' % (dev, r2.violated))
 
     # ---- 3. TLC's terminal states -> concrete runs of the real scripts -------------
-    todo  = select(runs, 1100, rng) if quick else runs
+    todo  = select(runs, 800, rng) if quick else runs
     cases = build_cases(todo, rng, per_data_run=2)
     traces, info = check_cases(chk, cases, workers)
 
@@ -296,7 +310,9 @@ def run(chk, tier, seed):
         'class); $, back-tick and newline tokens are run but only reported',
         'pre_exec_sync is exercised without failing pre_exec commands (a rank that fails before the '
         'barrier leaves the others waiting for the launcher to kill them)',
-        'named environments (td.named_env), startup_timeout and services are not exercised']
+        'the named environment is an env dump in the pilot sandbox turned into an activation script '
+        'by the real LaunchMethod.get_task_named_env / ru.env_prep; virtualenv creation itself is not run',
+        'startup_timeout and services are not exercised']
 
 
 def replay(chk, obj):
